@@ -149,6 +149,20 @@ def gen_case(rng, index, tier):
         else:
             v['args'][-1] = v['args'][-1] + 1
         pool.append(v)
+    for v in list(pool):
+        if v['t'] == 'iter' and rng.random() < 0.35:
+            w = copy.deepcopy(v)
+            if rng.random() < 0.6:
+                n0, n1 = rng.choice([1, 2, 3, 4]), rng.choice([1, 2, 3, 4])
+                pat = [0] * n0 + [1] * n1
+                rng.shuffle(pat)
+                if rng.random() < 0.5:
+                    pat = ([0] + [0, 1] * max(n0, n1))[:n0 + n1 + 1]    # zip(r, islice(r, 1, None)): one iterator runs one item ahead
+                w['pat'] = pat
+                w['m'] = pat.count(0)
+            else:
+                w['keep'] = True
+            pool.append(w)
     nepochs = rng.choice([1, 2, 2, 3, 3, 4] + ([5, 6] if tier == 'thorough' else []))
     epochs = []
     slot = 1
@@ -160,7 +174,7 @@ def gen_case(rng, index, tier):
             ops = []
             for _ in range(rng.choice([1, 2, 2, 3, 4])):
                 op = copy.deepcopy(rng.choice(pool))
-                if op['t'] == 'iter' and rng.random() < 0.5:
+                if op['t'] == 'iter' and not op.get('pat') and rng.random() < 0.5:
                     op['m'] = rng.choice([0, 1, 2, 3, 4, 5, 6])
                 ops.append(op)
             caller = dict(ops=ops, io=None)
@@ -238,6 +252,9 @@ def deep_equal(a, b):
     return bool(r)
 
 
+_KEPT = []
+
+
 def perform(op, cachedir):
     '''Execute one operation through nutils' public API.  cachedir None = caching disabled (the model).'''
     import treelog, contextlib
@@ -250,6 +267,22 @@ def perform(op, cachedir):
             if op['t'] == 'call':
                 v = F.FUNCS[op['f']](*[F.decode_arg(a) for a in op['args']], **{k: F.decode_arg(v) for k, v in op['kw'].items()})
                 rec = ['value', v]
+            elif op.get('pat'):
+                # two iterators over the same recursion alive at the same time in one consumer, advanced in the order given by `pat`
+                # (pairing consecutive items, look-ahead): each must deliver the uncached prefix
+                its = [iter(F.RECS[op['r']](*op['args'])), iter(F.RECS[op['r']](*op['args']))]
+                out = [[], []]
+                dead = [False, False]
+                for w in op['pat']:
+                    if dead[w]:
+                        continue
+                    try:
+                        out[w].append(next(its[w]))
+                    except StopIteration:
+                        dead[w] = True
+                for it in its:
+                    it.close()
+                rec = ['items', out[0] + ['|'] + out[1]]
             else:
                 it = iter(F.RECS[op['r']](*op['args']))
                 items = []
@@ -258,7 +291,10 @@ def perform(op, cachedir):
                         items.append(next(it))
                 except StopIteration:
                     pass
-                it.close()
+                if op.get('keep'):
+                    _KEPT.append(it)   # the consumer does not finish with its iterator: it stays suspended after the last item taken, until the process ends
+                else:
+                    it.close()
                 rec = ['items', items]
         except procsim.SimDeadlock:
             raise
@@ -272,7 +308,10 @@ def perform(op, cachedir):
 def model_of(op):
     from . import c18_funcs as F
     rec, tr = perform(op, None)
-    if op['t'] == 'iter':
+    if op['t'] == 'iter' and op.get('pat'):
+        ms = F.model_sequence(op['r'], op['args'], op['pat'].count(0)) + ['|'] + F.model_sequence(op['r'], op['args'], op['pat'].count(1))
+        assert rec[0] == 'items' and deep_equal(rec[1], ms), (rec, ms)
+    elif op['t'] == 'iter':
         # independent second opinion for sequences
         ms = F.model_sequence(op['r'], op['args'], op['m'])
         assert rec[0] == 'items' and deep_equal(rec[1], ms), (rec, ms)
@@ -772,7 +811,15 @@ def shrink_candidates(case):
             if caller.get('io'):
                 yield shrink.with_key(c, ['epochs', ei, 'callers', ci, 'io'], None)
             for oi, op in enumerate(caller['ops']):
-                if op['t'] == 'iter':
+                if op['t'] == 'iter' and op.get('pat'):
+                    for red in shrink.list_reductions(op['pat']):
+                        if red:
+                            cc = shrink.with_key(c, ['epochs', ei, 'callers', ci, 'ops', oi, 'pat'], red)
+                            cc['epochs'][ei]['callers'][ci]['ops'][oi]['m'] = red.count(0)
+                            yield cc
+                elif op['t'] == 'iter':
+                    if op.get('keep'):
+                        yield shrink.with_key(c, ['epochs', ei, 'callers', ci, 'ops', oi, 'keep'], False)
                     for v in shrink.int_reductions(op['m'], 0):
                         yield shrink.with_key(c, ['epochs', ei, 'callers', ci, 'ops', oi, 'm'], v)
         if ep.get('pre'):
